@@ -226,6 +226,7 @@ class C10(Profile):
 
 class C11(Profile):
     name = "C11"
+    pristine_oracle = True
     runs = {"quick": 2500, "thorough": 50000}
     steps = (30, 60)
     expected_probes = ["fresh_compared", "sampling_without_prior_read",
